@@ -128,7 +128,7 @@ impl World {
     /// Expected outcome of a request.
     pub fn expect(&self, op: &Op) -> Expect {
         let r = match op {
-            Op::Q(n) => self.value_of_node(*n),
+            Op::Q(n) | Op::QClone(n) => self.value_of_node(*n),
             Op::Q2(n, s) => self.value_of(F::Ev2, *n, *s),
             Op::Q0 => self.value_of(F::Ev0, 0, 0),
             Op::Acc(n) => return self.accumulated(*n),
